@@ -363,7 +363,10 @@ type Case struct {
 	Stale bool `json:"stale,omitempty"`
 }
 
-var vias = []string{"value", "inv-issue", "inv-issue-op", "inv-value"}
+// "inv-credit-preceding": a credit note (issue_date = Date) whose preceding
+// document was issued on the Decoy date: the tax date is still the credit
+// note's own issue date
+var vias = []string{"value", "inv-issue", "inv-issue-op", "inv-value", "inv-credit-preceding"}
 
 const irrelevantTag = "simplified"
 
@@ -494,7 +497,7 @@ func enumBoundaries(yield func(Case) bool) {
 				for _, tags := range tagVariants(rr.rate) {
 					for _, via := range vias {
 						c := Case{Regime: rr.reg.File, Cat: rr.cat.Code, Rate: rr.rate.Key, Date: d, Tags: tags, Ext: ext, Via: via}
-						if via == "inv-issue-op" || via == "inv-value" {
+						if via == "inv-issue-op" || via == "inv-value" || via == "inv-credit-preceding" {
 							c.Decoy = pickDecoy(rr.rate, d, tags, ext)
 						}
 						if !yield(c) {
@@ -572,7 +575,7 @@ func genCase(t *rapid.T) Case {
 	if c.Via != "value" {
 		c.Stale = rapid.Bool().Draw(t, "stale")
 	}
-	if c.Via == "inv-issue-op" || c.Via == "inv-value" {
+	if c.Via == "inv-issue-op" || c.Via == "inv-value" || c.Via == "inv-credit-preceding" {
 		if rapid.Bool().Draw(t, "decoy_any") {
 			c.Decoy = fmtDay(day0.AddDate(0, 0, rapid.IntRange(0, lastDayOffset).Draw(t, "decoy")))
 		} else {
@@ -667,6 +670,10 @@ func invoiceJSON(rr rateRef, c Case) []byte {
 	case "inv-value":
 		doc["issue_date"] = c.Decoy
 		doc["value_date"] = c.Date
+	case "inv-credit-preceding":
+		doc["issue_date"] = c.Date
+		doc["type"] = "credit-note"
+		doc["preceding"] = []any{map[string]any{"code": "C12-0", "issue_date": c.Decoy, "type": "standard"}}
 	}
 	data, err := json.Marshal(doc)
 	if err != nil {
@@ -919,6 +926,8 @@ func judge(c Case, o *vh.Obs) {
 	switch {
 	case invoice && c.Via == "inv-value" && got.same(expected(rr.rate, c.Decoy, c.Tags, ext)):
 		o.Failf("invoice:issue-date-used-instead-of-value-date", "%s (issue_date %s): expected %s, got %s which is the value for the issue date", where, c.Decoy, want, got)
+	case invoice && c.Via == "inv-credit-preceding" && got.same(expected(rr.rate, c.Decoy, c.Tags, ext)):
+		o.Failf("invoice:preceding-date-used-as-tax-date", "%s (credit note, preceding issued %s): expected %s, got %s which is the value for the preceding document's date", where, c.Decoy, want, got)
 	case invoice && c.Via == "inv-issue-op" && got.same(expected(rr.rate, c.Decoy, c.Tags, ext)):
 		o.Failf("invoice:op-date-used-as-tax-date", "%s (op_date %s): expected %s, got %s which is the value for the operation date", where, c.Decoy, want, got)
 	case onStart && want.Kind == "value" && rr.rate.Values[want.idx].Since == c.Date && got.same(prev):
@@ -1123,7 +1132,7 @@ func judgeUnpublished(c TableCase, o *vh.Obs) {
 func init() {
 	vh.Describe(
 		"Oracle = published tables data/regimes/*.json only: applicable values are those whose tags intersect the document tags (when tagged) and whose ext is contained in the combo's ext (when qualified); the answer is the applicable value with the greatest since <= tax date (undated = minus infinity, a value is in force ON its start date); none => nil / calculation error; exempt key => no percentage; equal start dates: a qualified value beats an unqualified one (class tie:qualified-beats-unqualified, own signature), other ties with different percentages only assert membership. "+
-			"Observed through tax.RateDef.Value on the registered regime and through lines[0].taxes[0] of a one-line invoice built as JSON, parsed by gobl.Parse and calculated, with the tax date as issue_date, as issue_date next to a decoy op_date, and as value_date overriding a decoy issue_date; half of the invoice cases carry a stale input percent/surcharge that must be replaced. "+
+			"Observed through tax.RateDef.Value on the registered regime and through lines[0].taxes[0] of a one-line invoice built as JSON, parsed by gobl.Parse and calculated, with the tax date as issue_date, as issue_date next to a decoy op_date, as value_date overriding a decoy issue_date, and as the issue_date of a credit note whose preceding document carries a decoy issue date; half of the invoice cases carry a stale input percent/surcharge that must be replaced. "+
 			"boundaries (exhaustive): every published regime file x category x rate key x {since-1, since, since+1 of every value} + {0001-01-01, "+today+", 9999-12-31} x ext variants (none, each qualifier exactly / plus an unrelated pair / value altered, unrelated only) x tag variants (none, unrelated, each table tag) x 4 observation routes. random: arbitrary dates 0001..9999 (40% within 3 or 400 days of a start date, 40% 1985-2035, 20% anywhere), same variants, random decoys. tables: per published rate, strictly descending start dates with the undated value last among unqualified values and inside each identically-qualified group, and the registered Go table equal to the published one value by value; unpublished: every registered rate exists in the published files. "+
 			"Non-trivial: the date is within one day of a published start date, or before the first applicable value, or a qualified value competes with an applicable unqualified one (tables: more than one value).",
 		"data/regimes/*.json in the tree under test are the referee; the Go tables are only ever observed",
